@@ -147,7 +147,7 @@ func TestC02Failover(t *testing.T) {
 	sub := lab.Sub("failover-histories", "rapid histories over {eject(i,window) via MarkBackendUnhealthy, advance, add, remove, request(client), hold (request parked in a backend), release, spin(k)} "+
 		"against the real LoadBalancer.ServeHTTP in virtual time (L1 scripted backends, all answer 200), 5 strategies x pools of 1..6 x weights 1..6; oracle: served backend is outside every unhealthy window the harness issued, "+
 		"and 'no healthy backend' 503 only when every pool member is inside one; non-trivial = history with a request issued while 1 <= ejected < pool size")
-	sub.NontrivialFloor(0.40)
+	sub.NontrivialFloor(0.35)
 	lab.Assume("L1: scripted RoundTripper replaces http.Transport; ejection is issued directly through MarkBackendUnhealthy (passive/active ejection rules are C04)")
 	maxLen := lab.Scale(40, 80)
 	lab.Check(t, sub, 4000, 120000, func(rt *rapid.T) {
